@@ -521,5 +521,83 @@ def r06_7(ctx):
     return r
 
 
+def r06_8(ctx):
+    """'does not carry this session's username': the ICE USERNAME is "<local ufrag>:<remote ufrag>". R06.1 shows the
+    MESSAGE-INTEGRITY half of the gate; this rule is the USERNAME half, both fragments. Every state effect of
+    handle_stun_request is cut (a) by the edge on which the first half equals the local fragment, and (b) by an edge on
+    which the second half equals the remote parameters' fragment - or the remote parameters are not known yet (checks
+    can arrive before the answer). A request that names another peer fragment (forked offer, earlier generation of the
+    peer) passed the old gate as long as it was keyed with the local password."""
+    r = RuleResult("R06.8", "K1", "both halves of USERNAME are this session's before a request changes ICE state")
+    b = ctx.body(REQ)
+    r.scope.append(REQ)
+    nw = core.guard_edges(b, _not_webrtc_edge)
+
+    def cmp_edge(term, meaning, what):
+        t, neg = term, False
+        while t[0] == "un" and t[1] == "Not":
+            t, neg = t[2], not neg
+        if t[0] == "call" and "PartialEq" in t[1] and isinstance(meaning, bool) and mir.has(t, what) and \
+                mir.has(t, lambda x: x[0] == "field" and x[2] == "username"):
+            return (meaning != neg) is t[1].endswith("::eq")
+        return False
+
+    def local_half(term, meaning, *_):
+        return cmp_edge(term, meaning, lambda x: (x[0] == "var" and x[1] == "local_ufrag") or (x[0] == "field" and x[2] == "local_parameters"))
+
+    def is_remote(x):
+        return (x[0] == "var" and x[1] in ("remote_ufrag", "expected")) or (x[0] == "field" and x[2] == "remote_parameters")
+
+    def peer_half(term, meaning, *_):
+        if cmp_edge(term, meaning, is_remote):
+            return True
+        # remote parameters unknown: the None edge of `remote_ufrag.as_deref()` / `remote_parameters.lock().as_ref()`
+        return term[0] == "discr" and meaning == "None" and mir.has(term[1], is_remote) and \
+            not mir.has(term[1], lambda x: x[0] == "field" and x[2] == "username")
+    gl = core.guard_edges(b, local_half)
+    # `let for_us = match username { Some(u) => <u's first half> == local_ufrag, None => false }; if !for_us .. return`:
+    # the comparison is stored in a temporary; its true edge is the guard when every definition of the temporary is either
+    # the constant false or such a comparison
+    for sb in range(len(b.blocks)):
+        if sb in b.cleanup or b.blocks[sb]["t"]["k"] != "switch":
+            continue
+        term, outs = b.switch_info(sb)
+        t, neg = term, False
+        while t[0] == "un" and t[1] == "Not":
+            t, neg = t[2], not neg
+        if t[0] != "var" or len(t) < 3:
+            continue
+        defs_ = b.var_def_terms(t[2])
+        if not defs_:
+            continue
+        ok = True
+        some_cmp = False
+        for d in defs_:
+            if mir.int_value(d) == 0 or d == ("const", 0, "false"):
+                continue
+            if d[0] == "call" and "PartialEq" in d[1] and d[1].endswith("::eq") and \
+                    mir.has(d, lambda x: (x[0] == "var" and x[1] == "local_ufrag") or (x[0] == "field" and x[2] == "local_parameters")) and \
+                    mir.has(d, lambda x: x[0] == "field" and x[2] == "username"):
+                some_cmp = True
+                continue
+            ok = False
+        if ok and some_cmp:
+            gl += [(sb, tgt) for tgt, _, m in outs if isinstance(m, bool) and (m != neg) is True]
+    gl = core.lift_guards(b, gl)
+    gp = core.lift_guards(b, core.guard_edges(b, peer_half))
+    n = 0
+    for bi, site in _effects(b):
+        n += 1
+        for g, half, msg in ((gl, "local", "its first half was never compared with the local fragment"),
+                             (gp, "peer", "its second half is never compared with the peer's fragment: a request keyed with the local password but "
+                              "naming another peer fragment adds candidates / nominates")):
+            if g and core.k1(b, [bi], g + nw)[bi] is None:
+                r.ok({"site": "%s %s" % (b.where(bi), site), "cut_by": "USERNAME %s half" % half})
+            else:
+                r.violate(REQ, "username:%s-half:%s" % (half, site), b.where(bi), "ICE state changed by a Binding request whose USERNAME is not this session's: " + msg)
+    r.need("state effect sites of inbound requests", n, 8)
+    return r
+
+
 def run(ctx):
-    return [r06_1(ctx), r06_2(ctx), r06_3(ctx), r06_4(ctx), r06_5(ctx), r06_6(ctx), r06_7(ctx)]
+    return [r06_1(ctx), r06_2(ctx), r06_3(ctx), r06_4(ctx), r06_5(ctx), r06_6(ctx), r06_7(ctx), r06_8(ctx)]
